@@ -76,3 +76,10 @@ C[SF + 'find_subsequence_indices'] = dict(
              ('occurrences-are-reported', "implies(sequence._sequence != '' and subsequence._sequence != '', "
                                           'forall(lambda p: implies(occ(' + _Q + ', ' + _T + ', p), exists(lambda k: 0 <= k and k < len(result) and result[k] == p))))')],
 )
+
+# the module-level containment test, ordered form: "occurs somewhere" == the occurrence list is not empty
+C[SF + 'is_subsequence@ordered'] = dict(
+    params=dict(subsequence='Annotation', sequence='Annotation', order='bool'), specialize=dict(order=True), returns='bool', pure=True, raises={},
+    ensures=[('true-iff-an-occurrence-is-reported', 'result == (len(find_subsequence_indices(sequence, subsequence, False)) != 0)'),
+             ('true-iff-the-query-occurs-in-the-target',
+              "implies(sequence._sequence != '' and subsequence._sequence != '', result == exists(lambda p: occ(subsequence, sequence, p)))")])
